@@ -378,6 +378,31 @@ impl Session {
                 None => panic!("unknown request {}", req),
             },
         };
+        // an accepted update of one entry of an attribute / namespace view reads back (C11: the views are
+        // maps; C05: the update touches exactly that entry) -- implementation-only oracle (seed C11j)
+        if (resp == "ok" || resp == "NEW") && matches!(w[0], "append_namespace" | "set_namespace" | "set_attribute" | "remove_namespace" | "remove_attribute" | "map_insert" | "map_remove") {
+            let num = |i: usize| w[i].parse::<usize>().unwrap();
+            let (e, ki, vi, is_attr, removes) = match w[0] {
+                "append_namespace" | "set_namespace" => (n(self, 1), 2, 3, false, false),
+                "remove_namespace" => (n(self, 1), 2, 0, false, true),
+                "set_attribute" => (n(self, 1), 2, 3, true, false),
+                "remove_attribute" => (n(self, 1), 2, 0, true, true),
+                "map_insert" => (n(self, 2), 3, 4, w[1] == "attr", false),
+                _ => (n(self, 2), 3, 0, w[1] == "attr", true),
+            };
+            if !self.xot.is_removed(e) && self.xot.is_element(e) {
+                let got: Option<String> = if is_attr {
+                    self.xot.attributes(e).get(self.vocab.name(num(ki))).map(|v| format!("{:?}", v))
+                } else {
+                    self.xot.namespaces(e).get(self.vocab.prefix(num(ki))).map(|v| crate::tree::ns_num(*v).to_string())
+                };
+                let want: Option<String> = if removes { None } else if is_attr { Some(format!("{:?}", crate::common::dec(w[vi]).unwrap())) } else { Some(num(vi).to_string()) };
+                sink.stat("oracle.entry-reads-back");
+                if got != want {
+                    sink.fail("C11", &format!("C11:{}:entry-does-not-read-back", w[0]), &format!("{} answered {} but the view reads {:?} for that key (expected {:?})", req, resp, got, want), &self.history);
+                }
+            }
+        }
         if let Some(before) = noop_before {
             sink.stat("oracle.noop-move");
             if resp == "ok" && !self.detect_cycle() {
